@@ -21,8 +21,10 @@ func init() {
 		n := fs.Int("n", 10, "scenes")
 		maxv := fs.Int("maxv", 40, "max vertices of a mesh")
 		big := fs.Int("big", 0, "number of additional index-width threshold scenes (65535/65536 vertices)")
+		nsp := fs.Int("special", 0, "number of additional scenes with special IEEE values (NaN, Inf, -0, float32 limits)")
+		mid := fs.Int("mid", 0, "number of additional scenes with a mesh of a power-of-two-ish size (seed-rotated)")
 		_ = fs.Parse(args)
-		return gltffam.GenRandom(*out, *seed, *n, *maxv, *big)
+		return gltffam.GenRandom(*out, *seed, *n, *maxv, *big, *nsp, *mid)
 	}
 	commands["gltf-dump"] = func(args []string) error {
 		fs := flag.NewFlagSet("gltf-dump", flag.ExitOnError)
